@@ -5,6 +5,7 @@ import (
 	"fmt"
 	"reflect"
 	"strconv"
+	"strings"
 
 	"github.com/high-moctane/mocrelay"
 	"verif/harness/common"
@@ -117,6 +118,8 @@ func cacheCopyFilters(fs []common.JFilter) []common.JFilter {
 
 var cacheAuthors = []string{"pa", "pb", "pc"}
 
+var cacheLongVal = strings.Repeat("L", 300)
+
 func cacheGenPool(r *common.Rand, n int, mode string) (map[string]common.JEvent, []string) {
 	pool := map[string]common.JEvent{}
 	ids := make([]string, n)
@@ -129,7 +132,7 @@ func cacheGenPool(r *common.Rand, n int, mode string) (map[string]common.JEvent,
 		"c05": {1, 1, 0, 30000, 30000, 5, 5, 5},
 	}
 	kinds := kindsByMode[mode]
-	dvals := []string{"", "a", "b", "A"}
+	dvals := []string{"", "a", "b", "A", "x:y"} // (a d value may contain a colon)
 	evs := make([]common.JEvent, n)
 	// one pool in eight has events whose created_at lies at the ends of int64 (a comparison written as
 	// a subtraction, or through time.Unix, orders those wrongly)
@@ -138,6 +141,10 @@ func cacheGenPool(r *common.Rand, n int, mode string) (map[string]common.JEvent,
 		e := common.JEvent{ID: ids[i], PK: common.Pick(r, cacheAuthors), TS: int64(r.Intn(7)), Kind: common.Pick(r, kinds), Tags: [][]string{}}
 		if extreme && r.Chance(35) {
 			e.TS = common.Pick(r, common.ExtremeTS)
+		}
+		if r.Chance(6) {
+			// long tag values that agree on their first 128 bytes (and more) and differ at the end
+			e.Tags = append(e.Tags, []string{"t", cacheLongVal + common.Pick(r, []string{"a", "b"})})
 		}
 		if r.Chance(8) {
 			// kinds at the borders of the classes (regular < 10000 <= replaceable < 20000 <= ephemeral < 30000 <=
@@ -327,11 +334,11 @@ func cacheGenFilter(r *common.Rand, ids []string, sel int) common.JFilter {
 			var vals []string
 			switch names[i] {
 			case "t":
-				vals = sub([]string{"x", "y", ""}, r.Intn(3))
+				vals = sub([]string{"x", "y", "", cacheLongVal + "a", cacheLongVal[:128]}, r.Intn(3))
 			case "p":
 				vals = sub(cacheAuthors, 1+r.Intn(2))
 			case "d":
-				vals = sub([]string{"", "a", "b", "A"}, 1+r.Intn(2))
+				vals = sub([]string{"", "a", "b", "A", "x:y"}, 1+r.Intn(2))
 			case "e":
 				vals = sub(ids, 1+r.Intn(2))
 			case "a":
